@@ -355,7 +355,8 @@ theorem bandRec_sound (edges : List (P K × P K)) (d2 y0 y1 : K) (q : P K)
     · exact base l0 l1 r0 r1 h hl hr
     · have hm : lerpS y0 y1 q.y ((l0 + r0) / Scalar.two) ((l1 + r1) / Scalar.two)
           = (lerpS y0 y1 q.y l0 l1 + lerpS y0 y1 q.y r0 r1) / 2 := by
-        rw [sc_two]; exact lerpS_mid y0 y1 q.y l0 l1 r0 r1
+        have e2 : (Scalar.two : K) = 2 := sc_two
+        rw [e2]; exact lerpS_mid y0 y1 q.y l0 l1 r0 r1
       rcases le_total q.x ((lerpS y0 y1 q.y l0 l1 + lerpS y0 y1 q.y r0 r1) / 2) with hle | hge
       · exact ih l0 l1 _ _ h1 hl (by rw [hm]; exact hle)
       · exact ih _ _ r0 r1 h2 (by rw [hm]; exact hge) hr
